@@ -49,7 +49,8 @@ ParamName(seg) == CASE seg = "{x}" -> "x" [] seg = "{y}" -> "y" [] seg = "{z}" -
 
 \* paths are sequences of segments; rendered as "/" joined
 UrlPaths == IF Rich
-            THEN {<<"p">>, <<"p", "q">>, <<"r">>, <<"p", "{x}">>, <<"p", "{x}", "q">>, <<"r", "{y}">>, <<"r", "{y}", "{z}">>, <<"w">>}
+            THEN {<<"p">>, <<"p", "q">>, <<"r">>, <<"p", "{x}">>, <<"p", "{x}", "q">>, <<"r", "{y}">>, <<"r", "{y}", "{z}">>, <<"w">>,
+                  <<"{z}">>, <<"{z}", "q">>}        \* a parameter as the very first segment
             ELSE {<<"p">>, <<"p", "{x}">>, <<"r">>}
 
 RECURSIVE PathStr(_)
@@ -125,7 +126,8 @@ ParamsOf(p) == SelectSeq(p, IsParam)
 DeclChoices(p) ==
   IF "pathdecl" \notin Features \/ ParamsOf(p) = << >> THEN {<< >>}
   ELSE {<< >>, [i \in 1..Len(ParamsOf(p)) |-> ParamName(ParamsOf(p)[i])],
-        <<ParamName(ParamsOf(p)[Len(ParamsOf(p))])>>}
+        <<ParamName(ParamsOf(p)[Len(ParamsOf(p))])>>,
+        <<ParamName(ParamsOf(p)[1])>>}      \* only the first: the rest may be declared by another Path of the same block
 
 MethodDeclChoices(p) == IF "methoddecl" \in Features THEN DeclChoices(p) ELSE {<< >>}
 GenMethod(s, paths) ==
@@ -157,7 +159,10 @@ GenTag(s)    == {[t |-> "tag", name |-> n, annot |-> a, desc |-> d] :
 GenUrl(s)    == UNION {{[t |-> "url", path |-> p, tags |-> tg, pathdecl |-> pd, methods |-> ms] :
                  tg \in Pick(s, TagSeqs), pd \in Pick(s, DeclChoices(p)),
                  ms \in {<<[m EXCEPT !.pathdecl = mpd]>> : m \in GenMethod(s, {<< >>}), mpd \in Pick(s, MethodDeclChoices(p))}
-                        \cup (IF Exhaustive THEN {} ELSE {<<m1, m2>> : m1 \in GenMethod(s, {<< >>}), m2 \in GenMethod(s, {<< >>})})}
+                        \cup (IF Exhaustive THEN {}
+                              ELSE {<<[m1 EXCEPT !.pathdecl = mpd1], [m2 EXCEPT !.pathdecl = mpd2]>> :
+                                      m1 \in GenMethod(s, {<< >>}), m2 \in GenMethod(s, {<< >>}),
+                                      mpd1 \in Pick(s, MethodDeclChoices(p)), mpd2 \in Pick(s, MethodDeclChoices(p))})}
                : p \in Pick(s, UrlPaths)}
 GenTopMethod(s) == UNION {{[t |-> "method", m |-> [m EXCEPT !.pathdecl = pd]] : pd \in Pick(s, MethodDeclChoices(m.path))}
                           : m \in GenMethod(s, UrlPaths)}
@@ -357,7 +362,10 @@ SchemaView(tt, b) ==
 FormatOf(b) == CASE b.k \in {"regex"} -> "plainString" [] b.k \in {"any", "empty"} -> "binary" [] OTHER -> "json"
 
 FirstSeg(p) == IF p = << >> THEN "" ELSE p[1]
-AutoTag(e)  == "@" \o FirstSeg(e.path)     \* generator paths start with a plain letter segment
+\* tag name of a first segment: characters outside [A-Za-z0-9] are written _XX (catalog/tag.go; the full rule is
+\* JSightText!TagNF, checked on the function table of C19) - here only the generator's segments are needed
+TagSeg(seg) == CASE seg = "{x}" -> "_7Bx_7D" [] seg = "{y}" -> "_7By_7D" [] seg = "{z}" -> "_7Bz_7D" [] OTHER -> seg
+AutoTag(e)  == "@" \o TagSeg(FirstSeg(e.path))
 TagsOfEntry(e) == IF e.m.tags # << >> THEN e.m.tags
                   ELSE IF e.urltags # << >> THEN e.urltags
                   ELSE << AutoTag(e) >>
@@ -424,7 +432,7 @@ Catalog(d) ==
                       [name |-> Blocks(d, "enum")[i].name, annot |-> Blocks(d, "enum")[i].annot, values |-> <<"x", "y">>]],
        tags    |-> [i \in 1..Len(tags) |->
                       TagView(d, tags[i].name, IF tags[i].annot = "" THEN tags[i].name ELSE tags[i].annot, tags[i].desc)]
-                   \o [i \in 1..Len(autos) |-> TagView(d, "@" \o autos[i], "/" \o autos[i], "")],
+                   \o [i \in 1..Len(autos) |-> TagView(d, "@" \o TagSeg(autos[i]), "/" \o autos[i], "")],
        interactions |-> [i \in 1..Len(es) |-> InterView(d, es[i])] ]
 
 -----------------------------------------------------------------------------
